@@ -26,6 +26,9 @@ pub struct Send {
     pub pause_ms: u32,
     /// cut the Beast frame after this many bytes into two writes (0 = one write)
     pub cut: usize,
+    /// seconds to add to the wall clock for the 48-bit GPS time-of-day stamp of the Beast frame (None = a meaningless
+    /// counter, which the receiver ignores)
+    pub clock_offset_s: Option<f64>,
 }
 
 #[derive(Clone, Debug, Default)]
@@ -44,6 +47,8 @@ pub struct Scenario {
     /// with `via_config`: 1 = the df filter is given on the command line instead of in the file, 2 = the aircraft
     /// filter is (the command line overrides the file option by option; the other filter stays in the file)
     pub split: u8,
+    /// `--history-expire` (minutes; 0 = keep no history)
+    pub history_expire: Option<u64>,
     /// with `via_config`: write the sources in the long table form `tcp = { address = "127.0.0.1", port = N }`
     pub long_table: bool,
     /// addresses whose stored history (`/track?icao24=`) is fetched once everything has been processed
@@ -51,10 +56,14 @@ pub struct Scenario {
 }
 
 pub struct Outcome {
+    /// `/sensors` once everything had been processed
+    pub sensors: Value,
     /// the TCP ports the sources were served on (in source order)
     pub ports: Vec<u16>,
     /// `/track?icao24=` per requested address (null when the aircraft is unknown)
     pub tracks: std::collections::BTreeMap<u32, Value>,
+    /// the same answers as the server wrote them
+    pub tracks_raw: std::collections::BTreeMap<u32, String>,
     /// stdout lines
     pub lines: Vec<String>,
     /// lines of the --output file (when requested)
@@ -84,8 +93,21 @@ impl Env {
 }
 
 pub fn beast(frame: &[u8], n: u64) -> Vec<u8> {
+    beast_stamped(frame, n, None)
+}
+
+pub fn beast_stamped(frame: &[u8], n: u64, clock_offset_s: Option<f64>) -> Vec<u8> {
     let kind = if frame.len() == 14 { b'3' } else { b'2' };
-    let mut body = vec![0u8, 0, (n >> 24) as u8, (n >> 16) as u8, (n >> 8) as u8, n as u8, 40 + (n % 50) as u8];
+    let stamp: u64 = match clock_offset_s {
+        None => n & 0xffff_ffff,
+        Some(off) => {
+            // radarcape format: seconds since UTC midnight << 30 | nanoseconds
+            let now = std::time::SystemTime::now().duration_since(std::time::UNIX_EPOCH).map(|d| d.as_secs_f64()).unwrap_or(0.0) + off;
+            let tod = now.rem_euclid(86_400.0);
+            ((tod.floor() as u64) << 30) | ((tod.fract() * 1e9) as u64 & 0x3fff_ffff)
+        }
+    };
+    let mut body = vec![(stamp >> 40) as u8, (stamp >> 32) as u8, (stamp >> 24) as u8, (stamp >> 16) as u8, (stamp >> 8) as u8, stamp as u8, 40 + (n % 50) as u8];
     body.extend_from_slice(frame);
     let mut o = vec![0x1a, kind];
     for b in body {
@@ -117,6 +139,10 @@ fn http_get_all(port: u16) -> Option<Value> {
 }
 
 fn http_get(port: u16, path: &str) -> Option<Value> {
+    serde_json::from_str(&http_get_raw(port, path)?).ok()
+}
+
+fn http_get_raw(port: u16, path: &str) -> Option<String> {
     let mut s = TcpStream::connect_timeout(&format!("127.0.0.1:{port}").parse().ok()?, Duration::from_millis(500)).ok()?;
     s.set_read_timeout(Some(Duration::from_secs(3))).ok()?;
     s.write_all(format!("GET {path} HTTP/1.0\r\nHost: localhost\r\n\r\n").as_bytes()).ok()?;
@@ -124,7 +150,7 @@ fn http_get(port: u16, path: &str) -> Option<Value> {
     s.read_to_end(&mut buf).ok()?;
     let text = String::from_utf8_lossy(&buf);
     let body = text.split("\r\n\r\n").nth(1)?;
-    serde_json::from_str(body).ok()
+    Some(body.to_string())
 }
 
 struct Guard(Child);
@@ -171,6 +197,9 @@ pub fn play(env: &Env, sc: &Scenario, tag: &str) -> Result<Outcome, Fail> {
         if sc.with_file {
             t += &format!("output = \"{}\"\n", out_file.to_str().unwrap());
         }
+        if let Some(x) = sc.history_expire {
+            t += &format!("history_expire = {x}\n");
+        }
         for (port, r) in ports.iter().zip(sc.references.iter()) {
             if sc.long_table {
                 t += &format!("\n[[sources]]\ntcp = {{ address = \"127.0.0.1\", port = {port} }}\n");
@@ -201,6 +230,9 @@ pub fn play(env: &Env, sc: &Scenario, tag: &str) -> Result<Outcome, Fail> {
         }
         if sc.with_file {
             cmd.args(["--output", out_file.to_str().unwrap()]);
+        }
+        if let Some(x) = sc.history_expire {
+            cmd.args(["--history-expire", &x.to_string()]);
         }
         for (port, r) in ports.iter().zip(sc.references.iter()) {
             cmd.arg(match r {
@@ -246,7 +278,7 @@ pub fn play(env: &Env, sc: &Scenario, tag: &str) -> Result<Outcome, Fail> {
     let mut n = 0u64;
     for s in &sc.sends {
         n += 1;
-        let b = beast(&s.frame, n);
+        let b = beast_stamped(&s.frame, n, s.clock_offset_s);
         let k = s.source % conns.len().max(1);
         let c = &mut conns[k];
         let r = if s.cut > 0 && s.cut < b.len() {
@@ -327,11 +359,14 @@ pub fn play(env: &Env, sc: &Scenario, tag: &str) -> Result<Outcome, Fail> {
     if !moved {
         return Err(skip("the markers stopped coming through"));
     }
+    let sensors = http_get(web, "/sensors").unwrap_or(Value::Null);
     let mut tracks = std::collections::BTreeMap::new();
+    let mut tracks_raw = std::collections::BTreeMap::new();
     for a in &sc.track {
-        match http_get(web, &format!("/track?icao24={a:06x}")) {
-            Some(v) => {
-                tracks.insert(*a, v);
+        match http_get_raw(web, &format!("/track?icao24={a:06x}")) {
+            Some(raw) => {
+                tracks.insert(*a, serde_json::from_str(&raw).unwrap_or(Value::Null));
+                tracks_raw.insert(*a, raw);
             }
             None => return Err(skip("the /track endpoint did not answer")),
         }
@@ -345,7 +380,7 @@ pub fn play(env: &Env, sc: &Scenario, tag: &str) -> Result<Outcome, Fail> {
     let file_lines = if sc.with_file { Some(std::fs::read_to_string(&out_file).unwrap_or_default().lines().map(|s| s.to_string()).collect()) } else { None };
     let _ = std::fs::remove_dir_all(&dir);
     let lines = lines.lock().unwrap().clone();
-    Ok(Outcome { ports, lines, file_lines, table, tracks })
+    Ok(Outcome { sensors, ports, lines, file_lines, table, tracks, tracks_raw })
 }
 
 /// play a scenario; a process that dies is given the scenario once more, a second death is reported as `Died`
@@ -359,15 +394,15 @@ pub fn play_twice(env: &Env, sc: &Scenario, tag: &str) -> Result<Outcome, Fail> 
 pub fn scenario_json(sc: &Scenario) -> Value {
     serde_json::json!({
         "references": sc.references.iter().map(|r| r.map(|(a, o)| vec![a, o])).collect::<Vec<_>>(),
-        "sends": sc.sends.iter().map(|s| serde_json::json!([s.source, hex::encode(&s.frame), s.pause_ms, s.cut])).collect::<Vec<_>>(),
-        "df_filter": sc.df_filter, "aircraft_filter": sc.aircraft_filter, "dedup_ms": sc.dedup_ms, "update_position": sc.update_position, "with_file": sc.with_file, "via_config": sc.via_config, "split": sc.split, "long_table": sc.long_table, "track": sc.track,
+        "sends": sc.sends.iter().map(|s| serde_json::json!([s.source, hex::encode(&s.frame), s.pause_ms, s.cut, s.clock_offset_s])).collect::<Vec<_>>(),
+        "df_filter": sc.df_filter, "aircraft_filter": sc.aircraft_filter, "dedup_ms": sc.dedup_ms, "update_position": sc.update_position, "with_file": sc.with_file, "via_config": sc.via_config, "split": sc.split, "long_table": sc.long_table, "history_expire": sc.history_expire, "track": sc.track,
     })
 }
 
 pub fn scenario_of(v: &Value) -> Scenario {
     Scenario {
         references: v["references"].as_array().map(|a| a.iter().map(|r| r.as_array().and_then(|p| Some((p.first()?.as_f64()?, p.get(1)?.as_f64()?)))).collect()).unwrap_or_default(),
-        sends: v["sends"].as_array().map(|a| a.iter().map(|s| Send { source: s[0].as_u64().unwrap_or(0) as usize, frame: s[1].as_str().and_then(|h| hex::decode(h).ok()).unwrap_or_default(), pause_ms: s[2].as_u64().unwrap_or(0) as u32, cut: s[3].as_u64().unwrap_or(0) as usize }).collect()).unwrap_or_default(),
+        sends: v["sends"].as_array().map(|a| a.iter().map(|s| Send { source: s[0].as_u64().unwrap_or(0) as usize, frame: s[1].as_str().and_then(|h| hex::decode(h).ok()).unwrap_or_default(), pause_ms: s[2].as_u64().unwrap_or(0) as u32, cut: s[3].as_u64().unwrap_or(0) as usize, clock_offset_s: s[4].as_f64() }).collect()).unwrap_or_default(),
         df_filter: v["df_filter"].as_array().map(|a| a.iter().map(|x| x.as_u64().unwrap_or(0) as u16).collect()),
         aircraft_filter: v["aircraft_filter"].as_array().map(|a| a.iter().map(|x| x.as_u64().unwrap_or(0) as u32).collect()),
         dedup_ms: v["dedup_ms"].as_u64().unwrap_or(100) as u32,
@@ -376,6 +411,7 @@ pub fn scenario_of(v: &Value) -> Scenario {
         via_config: v["via_config"].as_bool().unwrap_or(false),
         split: v["split"].as_u64().unwrap_or(0) as u8,
         long_table: v["long_table"].as_bool().unwrap_or(false),
+        history_expire: v["history_expire"].as_u64(),
         track: v["track"].as_array().map(|a| a.iter().map(|x| x.as_u64().unwrap_or(0) as u32).collect()).unwrap_or_default(),
     }
 }
